@@ -274,6 +274,10 @@ def check(pid, tier, seed):
             errors += e
         for e in errors:
             broken.append({'file': 'correspondence-shard', 'log': e})
+        direct = list(getattr(ctx, 'direct_failures', []))
+        for d in direct[:5]:
+            violations.append(({'kind': 'property-violated-on-the-implementation (outside the model domain or direct check)',
+                                'case': d, 'seed': seed, 'tier': tier}, ''))
         # --- known findings replay
         for fnd in ctx.findings:
             if fnd['kind'] == 'finding':
@@ -334,6 +338,7 @@ def check(pid, tier, seed):
                 'rule': getattr(mod, 'RULE', ''),
                 'samples': samples,
                 'disagreements': len(failing),
+                'direct_failures': len(direct),
                 'disagreements_matching_known_finding': n_known,
                 'gen_untranslatable': gen_failed,
                 'notes': ctx.notes,
